@@ -83,6 +83,13 @@ def prepare(rep: Report, ctx: Ctx, mod):
             if not ok:
                 ctx.broken.append("axiom-audit")
                 rep.notes["audit_log"] = log[-2000:]
+        if ctx.build_ok and ctx.tier == "thorough":
+            # independent re-check of the compiled proofs of this property's theorem modules
+            mods = [t for t in mod.TARGETS if t.startswith("RdVerif.Props")]
+            rc, out, err = common.run(["lake", "env", "leanchecker", *mods], cwd=common.LEAN, timeout=7200)
+            rep.notes["leanchecker"] = {"modules": mods, "exit": rc, "tail": (out + err)[-300:]}
+            if rc != 0:
+                ctx.broken.append("leanchecker")
     expected = list(mod.THEOREMS)
     for t in expected:
         full = [k for k in thms if k == t]
